@@ -3,6 +3,7 @@ import Uom.Proofs.OpsExact
 import Uom.Proofs.BodyEq.Conv
 import Uom.Proofs.BodyEq.Storage
 import Uom.Proofs.BodyEq.Powi
+import Uom.Proofs.BodyEq.UnitMac
 /-!
 # C08 — exact storage converts exactly; integer storage truncates toward zero
 
@@ -166,5 +167,42 @@ theorem src_powi_rat_is_zpow (c : Rat) (e : Int) :
     simp
 
 end SourceTieRx
+
+/-! ### tie to the source: what a unit publishes for exact storage (`unit!`, /repo/src/unit.rs, this run) -/
+section SourceTieUnit
+open Uom.Rx Uom.Gen.RxBody Uom.BodyEq.UnitMac
+
+variable {F T R B : Type} (zero : F) (negF : F → F) (d : Decl F) (L : Lib F T R B)
+
+/-- the helpers: integers / BigInt and the rational types use the library's `FromPrimitive::from_f64`;
+    BigUint goes through the *unbounded* `Ratio<BigInt>::from_f64`; each panics exactly where that fails -/
+theorem src_from_f64_primint_bigint (x : F) :
+    run (envUnit zero negF d L) unit_free_from_f64_PrimInt_BigInt [.host (.f x)] = (embedOptT (L.fromPrim x), []) :=
+  from_f64_primint_bigint zero negF d L x
+theorem src_from_f64_ratio (x : F) :
+    run (envUnit zero negF d L) unit_free_from_f64_Ratio [.host (.f x)] = (embedOptT (L.fromPrim x), []) :=
+  from_f64_ratio zero negF d L x
+theorem src_from_f64_biguint (x : F) :
+    run (envUnit zero negF d L) unit_free_from_f64_BigUint [.host (.f x)] = (embedOptT (bigUintSpec L x), []) :=
+  from_f64_biguint zero negF d L x
+
+/-- the published coefficient / constant of every rational-factor storage class is that helper applied to
+    the *declared* factor / constant (or signed zero) -/
+theorem src_unit_coefficient_exact (conv : F → Option T) :
+    run (envUnitF zero negF d L conv) unit_Conversion_V_for_unit_coefficient_PrimInt_BigInt [] = (embedOptT (conv d.factor), []) ∧
+    run (envUnitF zero negF d L conv) unit_Conversion_V_for_unit_coefficient_BigUint [] = (embedOptT (conv d.factor), []) ∧
+    run (envUnitF zero negF d L conv) unit_Conversion_V_for_unit_coefficient_Ratio [] = (embedOptT (conv d.factor), []) :=
+  ⟨coefficient_primint_bigint zero negF d L conv, coefficient_biguint zero negF d L conv, coefficient_ratio zero negF d L conv⟩
+
+theorem src_unit_constant_exact (conv : F → Option T) (add : Bool) :
+    run (envUnitF zero negF d L conv) unit_Conversion_V_for_unit_constant_PrimInt_BigInt [.ctor0 (opCode add)] =
+      (embedOptT (conv (declConst zero negF d add)), []) ∧
+    run (envUnitF zero negF d L conv) unit_Conversion_V_for_unit_constant_BigUint [.ctor0 (opCode add)] =
+      (embedOptT (conv (declConst zero negF d add)), []) ∧
+    run (envUnitF zero negF d L conv) unit_Conversion_V_for_unit_constant_Ratio [.ctor0 (opCode add)] =
+      (embedOptT (conv (declConst zero negF d add)), []) :=
+  ⟨constant_primint_bigint zero negF d L conv add, constant_biguint zero negF d L conv add, constant_ratio zero negF d L conv add⟩
+
+end SourceTieUnit
 
 end Uom.C08
